@@ -15,7 +15,7 @@ def one(n):
     out = run_patch.run(os.path.join(V, "neutral", n, "patch.diff"), sorted(CLAIMS), j=4)
     print(n, sorted(out))
     return n, out
-with ThreadPoolExecutor(3) as ex:
+with ThreadPoolExecutor(int(os.environ.get("MTSA_NEUTRAL_JOBS", "4"))) as ex:
     for n, out in ex.map(one, names):
         res[n] = {"alarms": sorted(k for k in out if k != "error"), "first": {k: v[:2] for k, v in out.items()}}
 json.dump(res, open(rp, "w"), indent=1, sort_keys=True)
